@@ -42,6 +42,7 @@ sys.modules.setdefault("yahpo_gym", None)
 
 import itertools  # noqa: E402
 import logging  # noqa: E402
+import signal  # noqa: E402
 
 import numpy as np  # noqa: E402
 
@@ -67,6 +68,7 @@ CL_DEHB_TOP = "dehb-top-of-previous-rung-is-top-set-of-completed-rung"
 CL_DEHB_NONE = "dehb-suggest-returns-work-when-rung-below-has-too-few-survivors"
 CL_DEHB_RAISE = "dehb-suggest-does-not-raise-when-rung-below-has-too-few-survivors"
 CL_DEHB_HEAVY = "dehb-suggest-is-served-under-arbitrary-failure-subsets"
+CL_DEHB_FEWBR = "dehb-suggest-is-served-when-fewer-brackets-than-rungs-are-configured"
 CL_SYM_TOP = "min-max-symmetry-get-top-list"
 CL_SYM_BRK = "min-max-symmetry-sync-bracket-and-manager"
 CL_SYM_SCHED = "min-max-symmetry-sync-hyperband-scheduler"
@@ -100,6 +102,7 @@ CLAUSES = [
     CL_DEHB_NONE,
     CL_DEHB_RAISE,
     CL_DEHB_HEAVY,
+    CL_DEHB_FEWBR,
     CL_SYM_TOP,
     CL_SYM_BRK,
     CL_SYM_SCHED,
@@ -116,6 +119,37 @@ MAX_VIOL = 5
 
 class _Abort(Exception):
     """the scenario cannot be continued (the driver and the implementation disagree about the state)"""
+
+
+class _Hang(BaseException):
+    """raised by the watchdog timer inside a library call that does not return"""
+
+
+def _watchdog_available():
+    try:
+        old = signal.signal(signal.SIGALRM, signal.SIG_DFL)
+        signal.signal(signal.SIGALRM, old)
+        return True
+    except (ValueError, AttributeError):
+        return False
+
+
+def _call_with_watchdog(fn, seconds=15.0):
+    """a request for work that never returns must not hang the monitor (SIGALRM, main thread only)"""
+
+    def handler(signum, frame):
+        raise _Hang("no answer within %.0f s" % seconds)
+
+    try:
+        old = signal.signal(signal.SIGALRM, handler)
+    except (ValueError, AttributeError):
+        return fn()
+    signal.setitimer(signal.ITIMER_REAL, seconds)
+    try:
+        return fn()
+    finally:
+        signal.setitimer(signal.ITIMER_REAL, 0.0)
+        signal.signal(signal.SIGALRM, old)
 
 
 class _Mon:
@@ -246,53 +280,79 @@ class _Ref:
         return {"system": B["sys"], "issued": [dict(d) for d in B["issued"]], "outcomes": [dict(d) for d in B["out"]]}
 
     def job(self, M, ctx, step, bid, r, level, sidx, tid, manager=True, best_clause=CL_BEST, check_best=True):
+        """checks the clauses for one job handed out (details of a violation are only built when a check fails)"""
         nb = len(self.br)
-        where = {"step": step, "job": {"bracket": bid, "rung_index": r, "level": level, "slot_index": sidx, "trial": tid}}
+        cnt = M.counts
+
+        def where():
+            return {"step": step, "job": {"bracket": bid, "rung_index": r, "level": level, "slot_index": sidx, "trial": tid}}
+
         if not isinstance(bid, (int, np.integer)) or not (0 <= bid <= nb):
-            M.check(CL_CYCLE, False, ctx, reason="bracket id is neither an open bracket nor the next new one", brackets_so_far=nb, **where)
+            M.check(CL_CYCLE, False, ctx, reason="bracket id is neither an open bracket nor the next new one", brackets_so_far=nb, **where())
             raise _Abort
         is_new = bid == nb
         if manager:
             free = self.total_free()
             if free == 0:
-                if not M.check(CL_NEWBR, is_new, ctx, reason="every open bracket waits for results, but no new bracket was opened", **where):
+                cnt[CL_NEWBR] += 1
+                if not is_new:
+                    M.check(CL_NEWBR, False, ctx, reason="every open bracket waits for results, but no new bracket was opened", **where())
+                    cnt[CL_NEWBR] -= 1
                     raise _Abort
             else:
-                M.check(CL_ONLYIF, not is_new, ctx, reason="a new bracket was opened although open brackets have free slots", free_slots={b: self.free(b) for b in range(nb) if self.free(b)}, brackets={b: self.describe(b) for b in range(nb) if self.free(b)}, **where)
+                cnt[CL_ONLYIF] += 1
+                if is_new:
+                    cnt[CL_ONLYIF] -= 1
+                    M.check(CL_ONLYIF, False, ctx, reason="a new bracket was opened although open brackets have free slots", free_slots={b: self.free(b) for b in range(nb) if self.free(b)}, brackets={b: self.describe(b) for b in range(nb) if self.free(b)}, **where())
         elif is_new and nb > 0:
-            M.check(CL_BRK_OFFERS, False, ctx, reason="single bracket driver saw a second bracket", **where)
+            M.check(CL_BRK_OFFERS, False, ctx, reason="single bracket driver saw a second bracket", **where())
             raise _Abort
         if is_new:
             sysk = self.systems[nb % len(self.systems)]
             self.br.append({"sys": sysk, "issued": [dict() for _ in sysk], "out": [dict() for _ in sysk]})
-            if not M.check(CL_CYCLE, r == 0 and level == sysk[0][1], ctx, reason="bracket number %d must start at the base rung of rung system %d" % (nb, nb % len(self.systems)), expected_system=sysk, **where):
+            if not M.check(CL_CYCLE, r == 0 and level == sysk[0][1], ctx, reason="bracket number %d must start at the base rung of rung system %d" % (nb, nb % len(self.systems)), expected_system=sysk, **where()):
                 raise _Abort
         B = self.br[bid]
         sysk = B["sys"]
         cur = self.cur(bid)
         if cur is None or not (0 <= r < len(sysk)) or r < cur:
-            M.check(CL_SIZE, False, ctx, reason="job for a rung that already has all its results (or for a complete bracket)", bracket=self.describe(bid), **where)
+            M.check(CL_SIZE, False, ctx, reason="job for a rung that already has all its results (or for a complete bracket)", bracket=self.describe(bid), **where())
             raise _Abort
         if r > 0:
-            if not M.check(CL_AFTER, r == cur, ctx, reason="job of rung %d although rung %d has %d of %d outcomes" % (r, cur, len(B["out"][cur]), sysk[cur][0]), bracket=self.describe(bid), **where):
+            cnt[CL_AFTER] += 1
+            if r != cur:
+                cnt[CL_AFTER] -= 1
+                M.check(CL_AFTER, False, ctx, reason="job of rung %d although rung %d has %d of %d outcomes" % (r, cur, len(B["out"][cur]), sysk[cur][0]), bracket=self.describe(bid), **where())
                 raise _Abort
         elif r > cur:
             raise _Abort
         size, lev = sysk[r]
-        ok = level == lev and isinstance(sidx, (int, np.integer)) and 0 <= sidx < size and sidx not in B["issued"][r]
-        if not M.check(CL_SIZE, ok, ctx, reason="slot outside the configured rung (size %d, level %d) or handed out twice" % (size, lev), bracket=self.describe(bid), **where):
+        issued = B["issued"][r]
+        cnt[CL_SIZE] += 1
+        if not (level == lev and isinstance(sidx, (int, np.integer)) and 0 <= sidx < size and sidx not in issued):
+            cnt[CL_SIZE] -= 1
+            M.check(CL_SIZE, False, ctx, reason="slot outside the configured rung (size %d, level %d) or handed out twice" % (size, lev), bracket=self.describe(bid), **where())
             raise _Abort
         if tid is not None:
-            others = [t for t in B["issued"][r].values() if t is not None]
-            M.check(CL_DISTINCT, tid not in others, ctx, reason="trial appears twice in the same rung", bracket=self.describe(bid), **where)
+            others = [t for t in issued.values() if t is not None]
+            cnt[CL_DISTINCT] += 1
+            if tid in others:
+                cnt[CL_DISTINCT] -= 1
+                M.check(CL_DISTINCT, False, ctx, reason="trial appears twice in the same rung", bracket=self.describe(bid), **where())
             if r > 0 and check_best:
                 entries = list(B["out"][r - 1].values())
-                M.check(best_clause, _partial_top_ok(others + [tid], entries, size, self.mode), ctx, reason="trial is not among the best %d of the completed rung below (failed rank last)" % size, rung_below=entries, resumed_so_far=others, mode=self.mode, **where)
-        B["issued"][r][sidx] = tid
-        if r > 0 and check_best and len(B["issued"][r]) == size and all(t is not None for t in B["issued"][r].values()):
+                cnt[best_clause] += 1
+                if not _partial_top_ok(others + [tid], entries, size, self.mode):
+                    cnt[best_clause] -= 1
+                    M.check(best_clause, False, ctx, reason="trial is not among the best %d of the completed rung below (failed rank last)" % size, rung_below=entries, resumed_so_far=others, mode=self.mode, **where())
+        issued[sidx] = tid
+        if r > 0 and check_best and len(issued) == size and all(t is not None for t in issued.values()):
             entries = list(B["out"][r - 1].values())
-            full = list(B["issued"][r].values())
-            M.check(CL_COUNT, _full_top_ok(full, entries, size, self.mode), ctx, reason="the trials resumed are not a complete top-%d set of the rung below" % size, rung_below=entries, resumed=full, mode=self.mode, **where)
+            full = list(issued.values())
+            cnt[CL_COUNT] += 1
+            if not _full_top_ok(full, entries, size, self.mode):
+                cnt[CL_COUNT] -= 1
+                M.check(CL_COUNT, False, ctx, reason="the trials resumed are not a complete top-%d set of the rung below" % size, rung_below=entries, resumed=full, mode=self.mode, **where())
 
     def outcome(self, bid, r, sidx, tid, val):
         self.br[bid]["out"][r][sidx] = (tid, val)
@@ -437,9 +497,12 @@ def _run_manager(M, ctx, make, systems, mode, sign, W, choices, fails, values, k
                     M.check(CL_SERVED, False, ctx, step=step, mode=mode, reason="next_job returned None")
                     raise _Abort
                 if kind == "bracket":
-                    M.check(CL_BRK_OFFERS, len(ref.br) == 0 or ref.total_free() > 0, ctx, step=step, mode=mode, reason="bracket offers a slot although the reference has none free")
+                    M.counts[CL_BRK_OFFERS] += 1
+                    if not (len(ref.br) == 0 or ref.total_free() > 0):
+                        M.counts[CL_BRK_OFFERS] -= 1
+                        M.check(CL_BRK_OFFERS, False, ctx, step=step, mode=mode, reason="bracket offers a slot although the reference has none free")
                 else:
-                    M.check(CL_SERVED, True)
+                    M.counts[CL_SERVED] += 1
                 bid, slot = got
                 r, level, sidx, stid = slot.rung_index, slot.level, slot.slot_index, slot.trial_id
                 if kind == "dehb" or r == 0:
@@ -460,7 +523,10 @@ def _run_manager(M, ctx, make, systems, mode, sign, W, choices, fails, values, k
                     except Exception as e:
                         M.check(CL_DEHB_TOP, False, ctx, step=step, mode=mode, raised=repr(e)[:300], bracket=bid, rung_index=r)
                         raise _Abort
-                    M.check(CL_DEHB_TOP, _full_top_ok(tops, entries, size, mode), ctx, step=step, mode=mode, bracket=bid, rung_index=r, returned=tops, rung_below=entries, reason="top_of_previous_rung(pos < %d) is not a top set of the rung just completed" % size)
+                    M.counts[CL_DEHB_TOP] += 1
+                    if not _full_top_ok(tops, entries, size, mode):
+                        M.counts[CL_DEHB_TOP] -= 1
+                        M.check(CL_DEHB_TOP, False, ctx, step=step, mode=mode, bracket=bid, rung_index=r, returned=tops, rung_below=entries, reason="top_of_previous_rung(pos < %d) is not a top set of the rung just completed" % size)
                     trace.append(("top", bid, r, tuple(tops)))
                 trace.append(("job", bid, r, level, sidx, stid))
                 pending.append((njobs, bid, slot, tid))
@@ -478,7 +544,7 @@ def _run_manager(M, ctx, make, systems, mode, sign, W, choices, fails, values, k
                 M.check(CL_ACCEPT, False, ctx, step=step, mode=mode, raised=repr(e)[:300], job_number=j, bracket=bid, rung_index=slot.rung_index, slot_index=slot.slot_index)
                 trace.append(("raise", type(e).__name__))
                 raise _Abort
-            M.check(CL_ACCEPT, True)
+            M.counts[CL_ACCEPT] += 1
             ref.outcome(bid, slot.rung_index, slot.slot_index, tid, val)
             trace.append(("res", j, None if ret is None else tuple(ret)))
         if kind == "bracket" and not pending and len(ref.br) == 1:
@@ -639,7 +705,7 @@ def _cfg_key(config):
     return tuple(sorted((k, v) for k, v in config.items() if k != MAXATTR))
 
 
-def _run_scheduler(M, ctx, make, systems, mode, sign, W, choices, fails, values, dehb=False, pause_resume=True, use_maxattr=True, constrain=False, heavy=False):
+def _run_scheduler(M, ctx, make, systems, mode, sign, W, choices, fails, values, dehb=False, pause_resume=True, use_maxattr=True, constrain=False, heavy=False, fewbr=False):
     Trial = _lib()["Trial"]
     sched = make(mode)
     mgr = sched.bracket_manager
@@ -675,8 +741,10 @@ def _run_scheduler(M, ctx, make, systems, mode, sign, W, choices, fails, values,
                 raised = None
                 sugg = None
                 try:
-                    sugg = sched.suggest(next_tid)
+                    sugg = _call_with_watchdog(lambda: sched.suggest(next_tid)) if fewbr else sched.suggest(next_tid)
                 except Exception as e:
+                    raised = e
+                except _Hang as e:
                     raised = e
                 if len(jobs) != before + 1:
                     M.check(CL_SERVED, False, ctx, step=step, reason="suggest did not request exactly one job from the bracket manager", raised=repr(raised)[:300], suggestion=repr(sugg)[:200])
@@ -685,7 +753,9 @@ def _run_scheduler(M, ctx, make, systems, mode, sign, W, choices, fails, values,
                 bid, r, level, sidx, stid = jobs[-1]
                 few = dehb and ref.few_survivors(bid, r)
                 det = dict(step=step, job={"bracket": bid, "rung_index": r, "level": level, "slot_index": sidx}, bracket=ref.describe(bid))
-                if few:
+                if fewbr:
+                    M.check(CL_DEHB_FEWBR, raised is None and sugg is not None, ctx, raised=repr(raised)[:300], suggestion=repr(sugg)[:100], reason="suggest raises / hangs / answers None (trial_id_from_parent_slot: bracket_delta = num_brackets - rung_index <= 0)", **det)
+                elif few:
                     M.check(CL_DEHB_RAISE, raised is None, ctx, raised=repr(raised)[:300], reason="suggest raises: the top list of the rung below contains failed slots (trial_id None)", **det)
                     if raised is None:
                         M.check(CL_DEHB_NONE, sugg is not None, ctx, reason="suggest answers None (the Tuner stops the experiment) because a slot of the next rung would have to be filled with a failed trial", **det)
@@ -879,7 +949,7 @@ def _part_schedulers(M, tier, rs):
             _pair_scheduler(M, ctx, mk_sync(systems, sseed, geo=geo), systems, W, choices, fails, _values(np.random.RandomState(vseed), 2048, ties), CL_SYM_SCHED, ties=ties)
 
     # --- DEHB scheduler: enumerated (failures constrained), random (constrained), arbitrary failures (own clauses)
-    denum = [([(3, 1), (2, 2), (1, 4)], None, 2, 5 if quick else 6), ([(4, 1), (2, 3), (1, 9)], 1, 2, 5 if quick else 6)]
+    denum = [([(3, 1), (2, 2), (1, 4)], None, 2, 5 if quick else 6), ([(2, 1), (1, 3)], None, 3, 4)]
     nrot = 0
     for first, nb, W, T in denum:
         systems = _dehb_systems(first, nb)
@@ -891,7 +961,7 @@ def _part_schedulers(M, tier, rs):
             pr = nrot % 3 != 2
             ctx = {"part": "DEHB scheduler (enumerated, failures keep enough survivors)", "rungs_first_bracket": first, "num_brackets": nb, "workers": W, "return_order_choices": choices, "failing_jobs(before constraint)": sorted(fails), "value_seed": vseed, "scheduler_seed": nrot % 5, "support_pause_resume": pr}
             _pair_scheduler(M, ctx, mk_dehb(first, nb, nrot % 5, pr), systems, W, choices, fails, _values(np.random.RandomState(vseed), 2048), CL_SYM_DEHB, dehb=True, pause_resume=pr, constrain=True)
-    dcases = [([(9, 1), (5, 2), (3, 4), (1, 8)], None), ([(4, 1), (2, 3), (1, 9)], None), ([(9, 1), (3, 3), (1, 9)], 2), ([(6, 1), (4, 2), (3, 3), (2, 4), (1, 5)], 3), ([(8, 1), (4, 2), (2, 4), (1, 8)], 1)]
+    dcases = [([(9, 1), (5, 2), (3, 4), (1, 8)], None), ([(4, 1), (2, 3), (1, 9)], None), ([(9, 1), (3, 3), (1, 9)], None), ([(6, 1), (4, 2), (3, 3), (2, 4), (1, 5)], None), ([(5, 2), (2, 6)], None)]
     for first, nb in dcases:
         systems = _dehb_systems(first, nb)
         for k in range(6 if quick else 30):
@@ -906,6 +976,22 @@ def _part_schedulers(M, tier, rs):
             ctx = {"part": "DEHB scheduler (random, failures keep enough survivors)", "rungs_first_bracket": first, "num_brackets": nb, "workers": W, "return_order_choices": choices, "failing_jobs(before constraint)": sorted(fails), "value_seed": vseed, "scheduler_seed": sseed, "support_pause_resume": pr}
             _pair_scheduler(M, ctx, mk_dehb(first, nb, sseed, pr), systems, W, choices, fails, _values(np.random.RandomState(vseed), 2048), CL_SYM_DEHB, dehb=True, pause_resume=pr, constrain=True)
     M.sample({"part": "DEHB scheduler (random)", "rungs_first_bracket": dcases[0][0], "workers": "1..6", "support_pause_resume": "both", "note": "promotions in the first bracket checked against the rung just completed; min/max twin runs compare configurations"})
+    # fewer brackets per iteration than rungs (allowed by the constructor; brackets=1 is "successive halving")
+    fb = [([(8, 1), (4, 2), (2, 4), (1, 8)], 1), ([(8, 1), (4, 2), (2, 4), (1, 8)], 2), ([(9, 1), (3, 3), (1, 9)], 2), ([(4, 1), (2, 3), (1, 9)], 1), ([(6, 1), (4, 2), (3, 3), (2, 4), (1, 5)], 3)]
+    wd = _watchdog_available()
+    M.stat("watchdog_available", int(wd))
+    for first, nb in fb:
+        systems = _dehb_systems(first, nb)
+        for k in range(3 if quick else 8):
+            W = int(rs.choice([1, 2, 4]))
+            T = int(rs.randint(40, 90))
+            pfail = float(rs.choice([0.0, 0.2])) if wd else 0.0
+            choices = [int(x) for x in rs.randint(0, 1000, size=T)]
+            fails = {int(j) for j in np.nonzero(rs.rand(T + W + 2) < pfail)[0]}
+            vseed = int(rs.randint(0, 10 ** 6))
+            sseed = int(rs.randint(0, 10 ** 4))
+            ctx = {"part": "DEHB scheduler (fewer brackets than rungs, failures keep enough survivors)", "rungs_first_bracket": first, "num_brackets_per_iteration": nb, "workers": W, "return_order_choices": choices, "failing_jobs(before constraint)": sorted(fails), "value_seed": vseed, "scheduler_seed": sseed}
+            _pair_scheduler(M, ctx, mk_dehb(first, nb, sseed, True), systems, W, choices, fails, _values(np.random.RandomState(vseed), 2048), CL_SYM_DEHB, dehb=True, pause_resume=True, constrain=True, fewbr=True)
     # arbitrary failure subsets (a small fixed catalogue + random): judged by the dehb-... clauses
     hv = [([(3, 1), (2, 2), (1, 4)], None), ([(4, 1), (3, 2), (2, 4)], None), ([(2, 1), (1, 2)], None)]
     for first, nb in hv:
@@ -1101,9 +1187,11 @@ def _part_async(M, tier, rs):
             eps_max = 0.0
             npromo = 0
             for k in range(nper):
-                max_t = int(rs.choice([8, 16, 27]))
-                rf = [2, 3, 4][k % 3] if max_t != 27 else 3
-                brackets = 1 if k % 4 else 2
+                # reduction factors 2 and 4: thresholds are exact in both modes; 3: q = 1/3 vs 1 - 1/3 differ by
+                # round-off, such runs usually end (excused) at the first threshold that coincides with a value
+                rf = 3 if k % 4 == 3 else (2 if k % 2 == 0 else 4)
+                max_t = int(rs.choice([9, 27])) if rf == 3 else int(rs.choice([8, 16]))
+                brackets = 1 if (k % 4 or stype == "pasha") else 2  # PASHA compares the two top rungs of ONE rung system
                 W = int(rs.choice([1, 2, 4]))
                 T = int(rs.randint(120, 260 if quick else 500))
                 ntr = 96
